@@ -26,8 +26,14 @@ Open Scope N_scope.
 Inductive fencekind := Backtick | ColonFence.
 Inductive optstyle := NoOpts | ColonOpts | DashOpts.
 
+(* leaf constructs: one block token each, whose node line is token.map[0] + 1 *)
+Inductive leafkind :=
+| LPara | LHeading | LCode | LTarget | LBreak | LComment | LHtml | LMath | LTable.
+
 Inductive blk :=
-| Leaf (marker : nat) (more : nat)                       (* a paragraph of 1 + more lines *)
+| Leaf (k : leafkind) (marker : nat) (more : nat) (ins : list (nat * nat))
+      (* a leaf of kind k with [more] extra lines; for a paragraph [ins] lists inline constructs (an unknown role):
+         (marker, index of the paragraph line on which it is written) *)
 | Quote (marker : nat) (bs : list blk)                   (* "> " block quote *)
 | ListItem (marker : nat) (bs : list blk)                (* "- " list item *)
 | Div (marker : nat) (blank_before : nat) (blank_after : nat) (bs : list blk)      (* plain ::: container *)
@@ -46,6 +52,30 @@ Definition c_c : N := 99.        (* 'c' *)
 Definition c_i : N := 105.      (* 'i' *)
 Definition leaf_text (m : nat) : str := c_m :: repeat c_i m.            (* marker in unary: "miii" = 3 *)
 Definition cont_text : str := [c_c].                                      (* "c" *)
+(* an unknown role  {riii}`x`  preceded by a space *)
+Definition role_text (m : nat) : str := [32; 123; 114] ++ repeat c_i m ++ [125; 96; 120; 96].
+(* the inline constructs written on paragraph line j *)
+Definition ins_on (j : nat) (ins : list (nat * nat)) : str :=
+  concat (map (fun p => if Nat.eqb (snd p) j then role_text (fst p) else []) ins).
+Fixpoint para_cont (j n : nat) (ins : list (nat * nat)) : list str :=
+  match n with O => [] | S n' => (cont_text ++ ins_on j ins) :: para_cont (S j) n' ins end.
+
+Definition leaf_lines (k : leafkind) (m more : nat) (ins : list (nat * nat)) : list str :=
+  let t := leaf_text m in
+  let cont := repeat cont_text more in
+  match k with
+  | LPara => (t ++ ins_on 0 ins) :: para_cont 1 more ins
+  | LHeading => ([35; 32] ++ t) :: cont                                   (* "# m" *)
+  | LCode => [126; 126; 126] :: t :: cont ++ [[126; 126; 126]]            (* "~~~" *)
+  | LTarget => ([40] ++ t ++ [41; 61]) :: cont                            (* "(m)=" *)
+  | LBreak => ([43; 43; 43; 32] ++ t) :: cont                             (* "+++ m" *)
+  | LComment => ([37; 32] ++ t) :: cont                                   (* "% m" *)
+  | LHtml => [60; 100; 105; 118; 62] :: t :: cont ++ [[60; 47; 100; 105; 118; 62]]   (* "<div>" "</div>" *)
+  | LMath => [36; 36] :: t :: cont ++ [[36; 36]]                          (* "$$" *)
+  | LTable => ([124; 32] ++ t ++ [32; 124; 32; 99; 32; 124])              (* "| m | c |" *)
+              :: [124; 32; 45; 45; 45; 32; 124; 32; 45; 45; 45; 32; 124]  (* "| --- | --- |" *)
+              :: repeat [124; 32; 99; 32; 124; 32; 99; 32; 124] more       (* "| c | c |" *)
+  end.
 Definition opt_text : str := [107; 58; 32; 118].                          (* "k: v" *)
 Definition dir_name : str := [123; 110; 111; 116; 101; 125].              (* "{note}" *)
 Definition div_name : str := [98; 111; 120].                              (* "box" *)
@@ -54,7 +84,7 @@ Definition div_name : str := [98; 111; 120].                              (* "bo
 Fixpoint bt_height (b : blk) : nat :=
   let fix hs (bs : list blk) : nat := match bs with [] => O | x :: r => Nat.max (bt_height x) (hs r) end in
   match b with
-  | Leaf _ _ => O
+  | Leaf _ _ _ _ => O
   | Quote _ bs | ListItem _ bs | Div _ _ _ bs => hs bs
   | Dir _ Backtick _ _ _ _ bs => S (hs bs)
   | Dir _ ColonFence _ _ _ _ bs => hs bs
@@ -63,7 +93,7 @@ Fixpoint bt_height (b : blk) : nat :=
 Fixpoint colon_height (b : blk) : nat :=
   let fix hs (bs : list blk) : nat := match bs with [] => O | x :: r => Nat.max (colon_height x) (hs r) end in
   match b with
-  | Leaf _ _ => O
+  | Leaf _ _ _ _ => O
   | Quote _ bs | ListItem _ bs => hs bs
   | Div _ _ _ bs => S (hs bs)
   | Dir _ ColonFence _ _ _ _ bs => S (hs bs)
@@ -94,7 +124,7 @@ Fixpoint print (b : blk) : list str :=
     | x :: r => print x ++ [] :: seq r
     end in
   match b with
-  | Leaf m more => leaf_text m :: repeat cont_text more
+  | Leaf k m more ins => leaf_lines k m more ins
   | Quote _ bs => prefix_all [c_gt; c_sp] (seq bs)
   | ListItem _ bs => prefix_item (seq bs)
   | Div _ bb ba bs =>
@@ -120,7 +150,7 @@ Fixpoint height (b : blk) : nat :=
   let fix hs (bs : list blk) : nat :=
     match bs with [] => O | [x] => height x | x :: r => (height x + 1 + hs r)%nat end in
   match b with
-  | Leaf _ more => S more
+  | Leaf k m more ins => length (leaf_lines k m more ins)
   | Quote _ bs | ListItem _ bs => hs bs
   | Div _ bb ba bs => (1 + bb + hs bs + ba + 1)%nat
   | Dir _ _ os nopts bb ba bs =>
@@ -129,26 +159,36 @@ Fixpoint height (b : blk) : nat :=
 
 (* ---------- the true lines, by construction ---------- *)
 
-(* [start] = 1-based line of the block's first line *)
-Fixpoint locate (start : nat) (b : blk) : list (nat * nat) :=
+(* [start] = 1-based line of the block's first line.
+   [fl_body = false]: the true lines.  [fl_body = true]: where the code puts the constructs when the text after the
+   directive name is body text (no-argument class; open finding line:dir-firstline-body): the body is then taken to
+   begin on the line after the directive's first line even if an option block stands there. *)
+Fixpoint locate_gen (fl_body : bool) (start : nat) (b : blk) : list (nat * nat) :=
   let fix seq (start : nat) (bs : list blk) : list (nat * nat) :=
     match bs with
     | [] => []
-    | x :: r => locate start x ++ seq (start + height x + 1)%nat r
+    | x :: r => locate_gen fl_body start x ++ seq (start + height x + 1)%nat r
     end in
   match b with
-  | Leaf m _ => [(m, start)]
+  | Leaf _ m _ ins => (m, start) :: map (fun p => (fst p, start)) ins
+      (* inline constructs have no line of their own in markdown-it: they belong to their block's first line *)
   | Quote m bs | ListItem m bs => (m, start) :: seq start bs
   | Div m bb _ bs => (m, start) :: seq (start + 1 + bb)%nat bs
   | Dir m _ os nopts bb _ bs =>
-      (m, start) :: seq (start + 1 + length (opt_lines os nopts) + bb)%nat bs
+      (m, start) :: seq (if fl_body then start + 2 + bb
+                         else start + 1 + length (opt_lines os nopts) + bb)%nat bs
   end.
 
-Fixpoint locate_seq (start : nat) (bs : list blk) : list (nat * nat) :=
-  match bs with
-  | [] => []
-  | x :: r => locate start x ++ locate_seq (start + height x + 1)%nat r
-  end.
+Definition locate_seq_gen (fl_body : bool) : nat -> list blk -> list (nat * nat) :=
+  fix seq (start : nat) (bs : list blk) : list (nat * nat) :=
+    match bs with
+    | [] => []
+    | x :: r => locate_gen fl_body start x ++ seq (start + height x + 1)%nat r
+    end.
+
+(* the true lines *)
+Definition locate : nat -> blk -> list (nat * nat) := locate_gen false.
+Definition locate_seq : nat -> list blk -> list (nat * nat) := locate_seq_gen false.
 
 (* ---------- the renderer's arithmetic ---------- *)
 
@@ -185,7 +225,10 @@ Fixpoint lines_blk (base : Z) (idx : nat) (b : blk) : res (list (nat * Z)) :=
     end in
   let line := (Z.of_nat idx + base + 1)%Z in          (* token.map[0] + lineno, then + 1 in _render_tokens *)
   match b with
-  | Leaf m _ => Ok [(m, line)]
+  | Leaf _ m _ ins =>
+      (* _render_tokens: `for token_child in token.children: token_child.map = token.map` - inline tokens carry the
+         block token's map, so a role's lineno = token_line(token) is the block's first line *)
+      Ok ((m, line) :: map (fun p => (fst p, line)) ins)
   | Quote m bs | ListItem m bs =>
       (* children tokens belong to the same token stream: same text, same base *)
       do r <- seq base idx bs; Ok ((m, line) :: r)
@@ -210,8 +253,21 @@ Fixpoint lines_blk (base : Z) (idx : nat) (b : blk) : res (list (nat * Z)) :=
       | _ =>
           (* O_map for the nested parse of "\n".join(body): the child blocks are where they are in [body];
              that is only defined when [body] is the content from some line [d] on *)
-          let d := (length content_lines - length body)%nat in
           let first_child := (length (opt_lines os nopts) + bb + prepended_lines)%nat in
+          if first_line_is_body sg first_line then
+            (* text on the first line of a no-argument directive: the body is that line followed by content lines,
+               so in the nested text the children sit one line further down *)
+            match body with
+            | _ :: rest =>
+                let d := (length content_lines - length rest)%nat in
+                if lines_eqb rest (skipn d content_lines) && Nat.leb d first_child then
+                  do r <- seq (position + content_offset)%Z (first_child - d + 1)%nat bs;
+                  Ok ((m, position) :: r)
+                else Raise AssertionError
+            | [] => Raise AssertionError
+            end
+          else
+          let d := (length content_lines - length body)%nat in
           if lines_eqb body (skipn d content_lines) && Nat.leb d first_child then
             do r <- seq (position + content_offset)%Z (first_child - d)%nat bs;
             Ok ((m, position) :: r)
@@ -230,6 +286,11 @@ Fixpoint lines_seq (base : Z) (idx : nat) (bs : list blk) : res (list (nat * Z))
 
 (* a whole document: render(tokens) of md.parse(text) *)
 Definition document_lines (doc : list blk) : res (list (nat * Z)) := lines_seq 0%Z O doc.
+
+(* an included file, from its line index [startline] on (the blocks of the selected text):
+   MockIncludeDirective.run -> nested_render_text(text, startline + 1) *)
+Definition include_lines (startline : nat) (body : list blk) : res (list (nat * Z)) :=
+  lines_seq (Z.of_nat (startline + 1)) O body.
 
 (* ---------- warnings and includes ---------- *)
 
